@@ -1,6 +1,274 @@
 import TTV.Model.Result
 import TTV.Model.ResC17
 import TTV.Spec.C17
-/-! # C17 — tags are scoped (theorems: work in progress) -/
+import TTV.Lemmas.ResEmit
+/-! # C17 — tags are scoped (work in progress) -/
 namespace TTV.Props.C17
+open TTV.Result TTV.ResC17 TTV.Spec.C17 TTV.Lemmas.ResEmit
+set_option linter.unusedSimpArgs false
+
+/-! ## Part A: `current_tags` follows the stack-of-sets semantics -/
+/-- the tag context `current_tags` of an object reads -/
+def ctxOf : (s : Shape) → St s → TagCtx
+  | .sink _, st => st.tags
+  | .tt _, st => st.tags
+  | .text _, st => st.tt.tags
+  | .tbt, st => st.tt.tags
+  | .etod c, (own, inner) => if (caps c).currentTags then ctxOf c inner else own.tags
+  | .deco c, st => ctxOf c st
+  | .tagger _ _ c, st => ctxOf c st
+  | .tfr _, (own, _) => own.tt.tags
+  | .multi _, (own, _) => own.tags
+  | .e2s _, (own, _) => own.tags
+
+theorem currentTags_eq : ∀ (s : Shape) (st : St s), currentTagsOf s st = (ctxOf s st).cur
+  | .sink _, _ => rfl
+  | .tt _, _ => rfl
+  | .text _, _ => rfl
+  | .tbt, _ => rfl
+  | .etod c, (own, inner) => by
+      simp only [currentTagsOf, ctxOf]; split
+      · exact currentTags_eq c inner
+      · rfl
+  | .deco c, st => currentTags_eq c st
+  | .tagger _ _ c, st => currentTags_eq c st
+  | .tfr _, _ => rfl
+  | .multi _, _ => rfl
+  | .e2s _, _ => rfl
+
+/-- the `ExtendedToStreamDecorator` whose tags are read (if any) has been started -/
+def chainStarted : (s : Shape) → St s → Bool
+  | .etod c, (_, inner) => if (caps c).currentTags then chainStarted c inner else true
+  | .deco c, st => chainStarted c st
+  | .tagger _ _ c, st => chainStarted c st
+  | .e2s _, (own, _) => own.started
+  | _, _ => true
+
+theorem caps_currentTags (c : Shape) : (caps c).currentTags = true → (caps c).tags = true ∧ (caps c).startRun = true := by
+  cases c <;> simp [caps]
+  rename_i f; cases f <;> simp [Flavour.caps]
+
+theorem caps_noCurrentTags (c : Shape) : (caps c).currentTags = false → (caps c).tags = false := by
+  cases c <;> simp [caps]
+  rename_i f; cases f <;> simp [Flavour.caps]
+
+theorem inject_append (ctx : TagCtx) (a b : List (TagSet × TagSet)) :
+    inject ctx (a ++ b) = inject (inject ctx a) b := by simp [inject]
+
+theorem sinkStep_tags (s : Sink) (c : Call) : (sinkStep .ext s c).tags = refStep s.tags c := by
+  cases c <;> simp [sinkStep, refStep, Call.logged] <;> (repeat' split) <;> rfl
+
+theorem ttStep_tags (s : TT) (c : Call) : (ttStep s c).tags = refStep s.tags c := by
+  cases c with
+  | add k t a => cases k <;> simp [ttStep, refStep, Call.logged]
+  | _ => simp [ttStep, refStep, Call.logged, TT.reset]
+
+theorem textStep_tags (s : TextSt) (c : Call) : (textStep s c).tt.tags = refStep s.tt.tags c := by
+  cases c <;> simp only [textStep] <;> exact ttStep_tags _ _
+
+theorem tbtStep_tags (s : TbtSt) (c : Call) : (tbtStep s c).tt.tags = refStep s.tt.tags c := by
+  cases c <;> simp only [tbtStep] <;> exact ttStep_tags _ _
+
+theorem refStepInj_nil (ctx : TagCtx) (c : Call) : refStepInj [] ctx c = refStep ctx c := by
+  cases c <;> simp [refStepInj, refStep, inject]
+
+theorem refStepInj_neutral (inj : List (TagSet × TagSet)) (ctx : TagCtx) (c : Call)
+    (h : match c with | .startTestRun | .startTest _ | .stopTest _ | .tags _ _ => False | _ => True) :
+    refStepInj inj ctx c = ctx := by
+  cases c <;> simp_all [refStepInj, refStep]
+
+theorem foldl_stops (inj : List (TagSet × TagSet)) (ctx : TagCtx) (k : Nat) :
+    (List.replicate k Call.stop).foldl (refStepInj inj) ctx = ctx := by
+  induction k with
+  | zero => rfl
+  | succ k ih => simp [List.replicate_succ, refStepInj, refStep, ih]
+
+theorem ref_main (caps : Caps) (ht : caps.tags = true) (hr : caps.startRun = true) (inj : List (TagSet × TagSet))
+    (ctx : TagCtx) (c : Call) : (etodMain caps c).foldl (refStepInj inj) ctx = refStepInj inj ctx c := by
+  cases c <;> simp [etodMain, ht, hr, Spec.C08.degradeCall] <;> (try split) <;> simp [refStepInj, refStep]
+
+section own
+variable {σ : Type} (I : Iface σ)
+theorem etodStep_own_tags (hc : I.caps.tags = false) (own : EtodOwn) (inner : σ) (c : Call) :
+    (etodStep I own inner c).1.tags = refStep own.tags c := by
+  cases c with
+  | add k t a =>
+    cases k <;> simp only [etodStep, refStep] <;> (repeat' split) <;> simp [etodFinally_tags]
+  | stop => simp [etodStep, etodStop_tags, refStep]
+  | tags n g => simp [etodStep, hc, refStep]
+  | setFailfast b => simp only [etodStep, refStep]; split <;> rfl
+  | _ => simp [etodStep, refStep] <;> (try split) <;> rfl
+end own
+
+theorem e2s_own {σ : Type} (I : Iface σ) (own : E2S) (inner : σ) (c : Call) (h : own.started = true) :
+    (e2sStep I own inner c).1.tags = refStep own.tags c ∧ (e2sStep I own inner c).1.started = true := by
+  cases c with
+  | add k t a =>
+    simp only [e2sStep, e2sAuto, h, ite_true, refStep]
+    constructor <;> (repeat' split) <;> simp_all
+  | stopTestRun => simp [e2sStep, h, refStep]
+  | _ => simp [e2sStep, e2sAuto, e2sStart, h, refStep]
+
+/-- from one call to a list of calls -/
+theorem ctx_lift (s : Shape)
+    (h1 : ∀ (st : St s) (c : Call), (chainStarted s st = true ∨ c = .startTestRun) →
+      ctxOf s (step s st c) = refStepInj (chain s) (ctxOf s st) c ∧ chainStarted s (step s st c) = true) :
+    ∀ (cs : List Call) (st : St s), chainStarted s st = true →
+      ctxOf s (cs.foldl (step s) st) = cs.foldl (refStepInj (chain s)) (ctxOf s st) ∧
+      chainStarted s (cs.foldl (step s) st) = true := by
+  intro cs
+  induction cs with
+  | nil => intro st h; exact ⟨rfl, h⟩
+  | cons c cs ih =>
+    intro st h
+    obtain ⟨a, b⟩ := h1 st c (.inl h)
+    obtain ⟨a', b'⟩ := ih (step s st c) b
+    exact ⟨by simp only [List.foldl_cons]; rw [a', a], b'⟩
+
+/-- one call: the context read by `current_tags` moves as the reference semantics says -/
+theorem ctx_step : ∀ (s : Shape), s.wf = true → ∀ (st : St s) (c : Call),
+    (chainStarted s st = true ∨ c = .startTestRun) →
+    ctxOf s (step s st c) = refStepInj (chain s) (ctxOf s st) c ∧ chainStarted s (step s st c) = true
+  | .sink f, hw, st, c, _ => by
+      have hf : f = .ext := by simpa [Shape.wf] using hw
+      subst hf
+      exact ⟨by simp only [ctxOf, step, chain, refStepInj_nil]; exact sinkStep_tags st c, rfl⟩
+  | .tt ff, _, st, c, _ => ⟨by simp only [ctxOf, step, chain, refStepInj_nil]; exact ttStep_tags st c, rfl⟩
+  | .text ff, _, st, c, _ => ⟨by simp only [ctxOf, step, chain, refStepInj_nil]; exact textStep_tags st c, rfl⟩
+  | .tbt, _, st, c, _ => ⟨by simp only [ctxOf, step, chain, refStepInj_nil]; exact tbtStep_tags st c, rfl⟩
+  | .multi ss, _, (own, inner), c, _ => by
+      refine ⟨?_, rfl⟩
+      simp only [ctxOf, chain, refStepInj_nil]
+      cases c <;> simp [step, multiOwn, ttStep_tags] <;> simp [refStep]
+  | .tfr ch, _, (own, inner), c, _ => by
+      refine ⟨?_, rfl⟩
+      simp only [ctxOf, chain, refStepInj_nil]
+      cases c <;> simp [step, tfrStep] <;> (try split) <;> simp [ttStep_tags, refStep]
+  | .e2s ch, _, (own, inner), c, h => by
+      simp only [ctxOf, chain, refStepInj_nil, chainStarted] at h ⊢
+      rcases h with h | h
+      · exact e2s_own ⟨caps ch, step ch, failfastOf ch⟩ own inner c h
+      · subst h; simp [step, e2sStep, e2sStart, refStep]
+  | .deco ch, hw, st, c, h => by
+      have ih := ctx_step ch (by simpa [Shape.wf] using hw) st c (by simpa [chainStarted] using h)
+      simp only [ctxOf, chain, chainStarted] at h ih ⊢
+      cases c <;> first
+        | simpa [step] using ih
+        | (rcases h with h | h
+           · exact ⟨by simp [step, refStepInj, refStep], by simpa [step] using h⟩
+           · cases h)
+  | .tagger n g ch, hw, st, c, h => by
+      have hw' : ch.wf = true := by simpa [Shape.wf] using hw
+      have ih := ctx_step ch hw' st c (by simpa [chainStarted] using h)
+      simp only [ctxOf, chain, chainStarted] at h ih ⊢
+      cases c with
+      | startTest t =>
+        obtain ⟨a, b⟩ := ih
+        obtain ⟨a', b'⟩ := ctx_step ch hw' (step ch st (.startTest t)) (.tags n g) (.inl b)
+        refine ⟨?_, by simpa [step] using b'⟩
+        simp only [step]
+        rw [a', a]
+        simp [refStepInj, refStep, inject_append, inject]
+      | done | setFailfast _ =>
+        rcases h with h | h
+        · exact ⟨by simp [step, refStepInj, refStep], by simpa [step] using h⟩
+        · cases h
+      | _ => simpa [step, refStepInj] using ih
+  | .etod ch, hw, (own, inner), c, h => by
+      cases hct : (caps ch).currentTags
+      · -- the decorator's own context
+        have hc := caps_noCurrentTags ch hct
+        simp only [ctxOf, chain, chainStarted, hct, Bool.false_eq_true, ite_false, refStepInj_nil, and_true]
+        exact etodStep_own_tags ⟨caps ch, step ch, failfastOf ch⟩ hc own inner c
+      · -- the decorated object's context
+        obtain ⟨ht, hr⟩ := caps_currentTags ch hct
+        have hw' : ch.wf = true := by
+          cases ch <;> simp_all [Shape.wf, caps]
+          rename_i f; cases f <;> simp_all [Flavour.caps]
+        simp only [ctxOf, chain, chainStarted, hct, ite_true] at h ⊢
+        obtain ⟨k, hk⟩ := etodStep_emits ⟨caps ch, step ch, failfastOf ch⟩ own inner c
+        have hstep : (step (.etod ch) (own, inner) c).2
+            = (etodMain (caps ch) c ++ List.replicate k Call.stop).foldl (step ch) inner := hk
+        rw [hstep]
+        have lift := ctx_lift ch (ctx_step ch hw')
+        rcases h with h | h
+        · obtain ⟨a, b⟩ := lift _ inner h
+          refine ⟨?_, b⟩
+          rw [a, List.foldl_append, foldl_stops, ref_main _ ht hr]
+        · subst h
+          simp only [etodMain, hr, ite_true, List.cons_append, List.nil_append, List.foldl_cons]
+          obtain ⟨a, b⟩ := ctx_step ch hw' inner .startTestRun (.inr rfl)
+          obtain ⟨a', b'⟩ := lift (List.replicate k Call.stop) _ b
+          refine ⟨?_, b'⟩
+          rw [a', foldl_stops, a]
+
+theorem ctx_init : ∀ (s : Shape), ctxOf s (init s) = {}
+  | .sink _ => rfl
+  | .tt _ => rfl
+  | .text _ => rfl
+  | .tbt => rfl
+  | .etod c => by simp only [ctxOf, init]; split; exact ctx_init c; rfl
+  | .deco c => ctx_init c
+  | .tagger _ _ c => ctx_init c
+  | .tfr _ => rfl
+  | .multi _ => rfl
+  | .e2s _ => rfl
+
+theorem states_cur (s : Shape) (hw : s.wf = true) : ∀ (h : List Call) (st : St s),
+    (chainStarted s st = true ∨ h.head? = some .startTestRun) →
+    (states s st h).map (currentTagsOf s) = refCur (chain s) (ctxOf s st) h
+  | [], _, _ => rfl
+  | c :: h, st, hs => by
+      obtain ⟨a, b⟩ := ctx_step s hw st c (hs.imp id (by simp))
+      simp only [states, List.map_cons, refCur, currentTags_eq, a]
+      rw [← a, ← currentTags_eq, states_cur s hw h _ (.inl b), a]
+
+theorem chainStarted_noStream : ∀ (s : Shape) (st : St s), s.noStream = true → chainStarted s st = true
+  | .etod c, (_, inner), h => by
+      simp only [chainStarted]; split
+      · exact chainStarted_noStream c inner (by simpa [Shape.noStream] using h)
+      · rfl
+  | .deco c, st, h => chainStarted_noStream c st (by simpa [Shape.noStream] using h)
+  | .tagger _ _ c, st, h => chainStarted_noStream c st (by simpa [Shape.noStream] using h)
+  | .e2s _, _, h => by simp [Shape.noStream] at h
+  | .sink _, _, _ => rfl
+  | .tt _, _, _ => rfl
+  | .text _, _, _ => rfl
+  | .tbt, _, _ => rfl
+  | .tfr _, _, _ => rfl
+  | .multi _, _, _ => rfl
+
+/-- **C17 (current tags).**  On every result object and adapter graph `s`, after every call of every
+history `h`, `current_tags` is what the stack-of-sets semantics gives: `startTestRun` empties, `startTest`
+pushes a copy (a `Tagger` then applies its changes), `tags(new, gone)` changes the top, `stopTest` pops —
+but never the run-level set (D11), so it is always defined.  (A graph whose `current_tags` is read from an
+`ExtendedToStreamDecorator` has to be started with `startTestRun`.) -/
+theorem C17_current (s : Shape) (hw : s.wf = true) (h : List Call)
+    (hs : s.noStream = true ∨ h.head? = some .startTestRun) :
+    (states s (init s) h).map (currentTagsOf s) = refCur (chain s) {} h := by
+  have := states_cur s hw h (init s) (hs.imp (chainStarted_noStream s _) id)
+  rwa [ctx_init] at this
+
+/-- **C17 (test-local).**  Whatever `tags` calls (and other calls that are not test or run boundaries)
+happen between a `startTest` and its `stopTest`, after the `stopTest` the tag context is what it was before
+the `startTest`: changes made inside a test are discarded, those made outside persist. -/
+theorem C17_test_local (ctx : TagCtx) (t t' : Nat) (body : List Call)
+    (hb : ∀ c ∈ body, match c with | .startTestRun | .startTest _ | .stopTest _ => False | _ => True) :
+    ([Call.startTest t] ++ body ++ [Call.stopTest t']).foldl refStep ctx = ctx := by
+  have key : ∀ (body : List Call) (c0 : TagCtx),
+      (∀ c ∈ body, match c with | .startTestRun | .startTest _ | .stopTest _ => False | _ => True) →
+      (body.foldl refStep c0).parents = c0.parents := by
+    intro body
+    induction body with
+    | nil => intro c0 _; rfl
+    | cons c body ih =>
+      intro c0 h
+      rw [List.foldl_cons, ih _ (fun x hx => h x (List.mem_cons_of_mem _ hx))]
+      have := h c List.mem_cons_self
+      cases c <;> simp_all [refStep, TagCtx.change]
+  simp only [List.foldl_append, List.foldl_cons, List.foldl_nil]
+  have := key body (refStep ctx (.startTest t)) hb
+  simp only [refStep, TagCtx.push] at this
+  simp only [refStep, TagCtx.push, TagCtx.pop, this]
+
 end TTV.Props.C17
